@@ -267,6 +267,11 @@ func runC04(c *Ctx) {
 	const r5 = "C04.R5 state of router/realm/broker/dealer is touched only from the owner's goroutine"
 	ruleConfinement(c, r5)
 	c.R.Floor(r5, 120)
+
+	// R6: no goroutine of the router blocks on a client (wedge)
+	const r6 = "C04.R6 deliveries to client sessions never block; dealer and broker never block on the meta session"
+	ruleNonBlocking(c, r6)
+	c.R.Floor(r6, 25)
 }
 
 
